@@ -22,18 +22,17 @@ Definition q0 (es : list cnode) : cnode := CSeq (h0 "!!seq" 0) es.
 (* (text, IsValueNonString, valueHasType boolean / integer / number) observed on the implementation *)
 Definition scal_obs : Type := string * (bool * (bool * (bool * bool))).
 
-(* Resolve11 agrees with go-yaml v2 wherever it claims to know the answer *)
+(* the shared instance [nonstr_m] / [hastype_m] (Yaml/Resolve11.v), given the observed answer as residual
+   oracle, reproduces the observed answer: i.e. wherever the model computes (its fragment, the empty
+   text, texts with a newline) it agrees with go-yaml v2; outside, the oracle fallback is used *)
 Definition scal_agree (o : scal_obs) : bool :=
   let '(v, (ns, (tb, (ti, tn)))) := o in
-  if String.eqb v "" || has_newline v then negb ns
-  else match resolve11 v with
-       | None => true
-       | Some r =>
-           Bool.eqb (negb (rtag_eqb r RStr)) ns &&
-           (negb ns ||
-            (Bool.eqb (rtag_has_type r "boolean") tb && Bool.eqb (rtag_has_type r "integer") ti &&
-             Bool.eqb (rtag_has_type r "number") tn))
-       end.
+  let ho := fun (_ t : string) =>
+              if String.eqb t "boolean" then tb else if String.eqb t "integer" then ti else tn in
+  Bool.eqb (nonstr_m (fun _ => ns) v) ns &&
+  (negb ns ||
+   (Bool.eqb (hastype_m ho v "boolean") tb && Bool.eqb (hastype_m ho v "integer") ti &&
+    Bool.eqb (hastype_m ho v "number") tn)).
 
 Inductive case20 :=
 | KDocs (docs : list (cnode * sch)) (nonstr : list string)
